@@ -4,7 +4,7 @@
    Composed with the method theorems this gives the end-to-end statements for the randomized and the symeig method. *)
 From Coq Require Import List Arith Lia Bool Reals Lra.
 From TLV Require Import Base.Ops Base.Tensor Base.RSum Model.Svd Proofs.SvdProofsAux Proofs.SvdProofs Proofs.SvdInterfaceProofs
-  Proofs.SvdRandProofs Proofs.SvdSymeigFull Proofs.SvdSymeigShapes Proofs.SvdDecisions Proofs.SvdEckartYoung Proofs.SvdRandE2E.
+  Proofs.SvdRandProofs Proofs.SvdSymeigFull Proofs.SvdSymeigShapes Proofs.SvdDecisions Proofs.SvdEckartYoung Proofs.SvdRandE2E Proofs.SvdNNProofs Proofs.SvdMaskProofs.
 Import ListNotations.
 Local Open Scope R_scope.
 
@@ -170,4 +170,68 @@ Proof.
   subst Sg.
   split; [exact LS | split; [exact SV | split; [exact O1 | split; [exact O2 | split; [|exact SU]]]]].
   rewrite <- EE. apply frob2_ext. intros i j _ _. now rewrite RC.
+Qed.
+
+(* ---------- the non_negative option at the level of svd_interface: EVERY method / back end (incl. a callable), every mask, every
+   flip setting, every input: both returned factors are entrywise non-negative (sq stands for sqrt) ---------- *)
+Theorem interface_nonneg (funs : fname -> nat -> list (list R) -> triple R) meth d2 Ml n flip ub ty mask iters (sq : R -> R) eps U S V :
+  (forall t, 0 <= sq t) -> 0 <= eps ->
+  svd_interface Rops funs meth d2 Ml n flip ub (Some ty) mask iters sq eps = Ok (U, S, V) ->
+  nonneg_mat U /\ nonneg_mat V.
+Proof.
+  intros Hsq He E. unfold svd_interface in E. destruct (dispatch meth) as [fn|]; [|discriminate].
+  destruct (match mask with
+            | Some msk => match n with
+                          | Some _ => mask_loop Rops (funs fn) d2 msk iters 1 Ml (funs fn 0%nat Ml)
+                          | None => (Ml, funs fn 0%nat Ml) end
+            | None => (Ml, funs fn 0%nat Ml) end) as [M1 [[U1 S1] V1]].
+  destruct (if flip then svd_flip Rops U1 V1 ub else (U1, V1)) as [U2 V2].
+  destruct ty.
+  - pose proof (nndsvd_nonneg sq eps M1 U2 S1 V2 Hsq) as H.
+    destruct (make_svd_non_negative Rops sq eps M1 U2 S1 V2 NNDSVD) as [W Hh]. inversion E; subst. exact H.
+  - pose proof (nndsvda_nonneg sq eps M1 U2 S1 V2 He) as H.
+    destruct (make_svd_non_negative Rops sq eps M1 U2 S1 V2 NNDSVDA) as [W Hh]. inversion E; subst. exact H.
+Qed.
+
+(* ---------- with a mask, ANY back end: the result is the (sign-resolved) answer of the selected function on the LAST imputed
+   matrix, which agrees with the input on every observed entry; orthonormality, product and sign convention as without mask ---------- *)
+Theorem interface_masked_generic (funs : fname -> nat -> list (list R) -> triple R) meth fn d1 d2 (Ml mask : list (list R)) r flip ub
+    iters sq eps U S V pu pv :
+  dispatch meth = Some fn -> rect d1 d2 Ml -> rect d1 d2 mask -> (1 <= d1)%nat -> (1 <= iters)%nat ->
+  (forall c X, rect d1 d2 X ->
+     let '(U0, S0, V0) := funs fn c X in
+     rect d1 pu U0 /\ rect pv d2 V0 /\ (length S0 <= pu)%nat /\ (length S0 <= pv)%nat /\
+     orthonormal_cols d1 pu (mg U0) /\ orthonormal_rows pv d2 (mg V0)) ->
+  svd_interface Rops funs meth d2 Ml (Some r) flip ub None (Some mask) iters sq eps = Ok (U, S, V) ->
+  exists Mlast c U0 S0 V0,
+    rect d1 d2 Mlast /\
+    (forall i j, (i < d1)%nat -> (j < d2)%nat -> mg mask i j = 1 -> mg Mlast i j = mg Ml i j) /\
+    funs fn c Mlast = (U0, S0, V0) /\
+    S = S0 /\ orthonormal_cols d1 pu (mg U) /\ orthonormal_rows pv d2 (mg V) /\
+    (forall i j, recon U S V i j = recon U0 S0 V0 i j) /\
+    (flip = true -> ub = true -> forall t, (t < pu)%nat ->
+       exists imax, (imax < d1)%nat /\ forall i, Rabs (mg U i t) <= mg U imax t).
+Proof.
+  intros Hm HM Hmask Hd1 Hit HB E.
+  set (sf := funs fn).
+  assert (HF : forall c X, rect d1 d2 X -> length (fst (fst (sf c X))) = d1).
+  { intros c X HX. specialize (HB c X HX). unfold sf. destruct (funs fn c X) as [[U0 S0] V0]. cbn [fst].
+    destruct HB as ((L & _) & _). exact L. }
+  pose proof (mask_loop_spec d1 d2 sf mask Hmask HF iters 1%nat Ml (sf 0%nat Ml) HM (HF _ _ HM)) as SP.
+  assert (E' : (let '(M1, t1) := mask_loop Rops sf d2 mask iters 1 Ml (sf 0%nat Ml) in
+                let '(U1, S1, V1) := t1 in
+                let '(U2, V2) := if flip then svd_flip Rops U1 V1 ub else (U1, V1) in Ok (U2, S1, V2)) = Ok (U, S, V)).
+  { unfold svd_interface in E. rewrite Hm in E. exact E. }
+  clear E. rename E' into E.
+  destruct (mask_loop Rops sf d2 mask iters 1 Ml (sf 0%nat Ml)) as [M1 t1] eqn:EL.
+  destruct SP as (R1 & O1 & T1). specialize (T1 ltac:(lia)).
+  set (c := (1 + iters - 1)%nat) in *.
+  specialize (HB c M1 R1). fold sf in HB. rewrite <- T1 in HB.
+  destruct t1 as [[U0 S0] V0]. destruct HB as (RU & RV & L1 & L2 & OU & OV).
+  exists M1, c, U0, S0, V0. split; [exact R1 | split; [exact O1 | split; [now rewrite T1|]]].
+  destruct (interface_generic (fun _ _ _ => (U0, S0, V0)) meth fn d1 d2 M1 (Some r) flip ub iters sq eps U0 S0 V0 U S V pu pv)
+    as (E1 & P1 & P2 & RC & SU & _); try assumption; try reflexivity.
+  { rewrite (interface_unfold _ meth fn) by exact Hm. rewrite <- E.
+    destruct flip; [destruct (svd_flip Rops U0 V0 ub)|]; reflexivity. }
+  split; [exact E1 | split; [exact P1 | split; [exact P2 | split; [exact RC | exact SU]]]].
 Qed.
